@@ -1001,7 +1001,7 @@ class NodeFor:
             line = None
             try:
                 line = input_.readLine()
-                while line:
+                while line is not None:
                     value = ValueString(line)
                     if len(self.identifiers) == 1:
                         environment.put(self.identifiers[0], value)
